@@ -1,4 +1,5 @@
 let props : (string * (module Frame.PROP)) list = [
+  ("C10", (module C10));
   ("C11", (module C11));
   ("C15", (module C15));
 ]
